@@ -4,6 +4,13 @@
 // build overlay only; never part of a shipped build).
 package core
 
+import (
+	"bytes"
+	"sort"
+
+	"github.com/dominant-strategies/go-quai/core/types"
+)
+
 // VerifFillPending performs one iteration of the ticker branch of
 // worker.asyncStateLoop synchronously: build a pending header filled from the
 // tx pool on the current block and publish it on the async pending-header feed.
@@ -18,4 +25,11 @@ func (sl *Slice) VerifFillPending() error {
 	}
 	w.asyncPhFeed.Send(header)
 	return nil
+}
+
+// verifSortUncles is the map-order seam used by the patched environment.unclelist.
+func verifSortUncles(uncles []*types.WorkObjectHeader) {
+	sort.Slice(uncles, func(i, j int) bool {
+		return bytes.Compare(uncles[i].Hash().Bytes(), uncles[j].Hash().Bytes()) < 0
+	})
 }
